@@ -446,6 +446,48 @@ flops_t *trsv_ops;      /* flops distribution on n */
 #endif
 
 
+#ifdef SLU_MT_VERIF
+/* ---------------------------------------------------------------------
+ * Verification hooks (compiled only with -DSLU_MT_VERIF; add-only).
+ * The test harness supplies slu_mt_verif_event(); a weak no-op default
+ * lives in util.c.  kind is one of the SLUV_* codes below.
+ * --------------------------------------------------------------------- */
+#define SLUV_SCHED_ENTER     3   /* a=cur_pan                      (yield) */
+#define SLUV_SCHED_PICK      4   /* a=jcol b=STATE before BUSY c=tasks_remain (in C.S.) */
+#define SLUV_SCHED_TAKE      5   /* a=jcol b=bcol c=tasks_remain   (in C.S.) */
+#define SLUV_SCHED_EXIT      6   /* a=jcol b=bcol                  (yield) */
+#define SLUV_PANEL_BEGIN     7   /* a=jcol b=w c=type */
+#define SLUV_RELEASE_PRE     8   /* a=first col b=count            (yield) */
+#define SLUV_RELEASE_POST    9   /* a=first col b=count            (yield) */
+#define SLUV_PANEL_DONE_PRE 10   /* a=jcol                         (yield) */
+#define SLUV_PANEL_DONE     11   /* a=jcol                         (yield) */
+#define SLUV_NEWNSUPER      12   /* a=new supernode number         (yield) */
+#define SLUV_LUSUP_ALLOC    13   /* a=jcol b=num c=prev_next ctx=Glu */
+#define SLUV_U_ALLOC        14   /* a=jcol b=num c=prev_next       (yield) */
+#define SLUV_LSUB_ALLOC     15   /* a=jcol b=num c=prev_next       (yield) */
+#define SLUV_DYN_SETMAP     16   /* a=jcol b=num c=nextlu ctx=Glu  (yield) */
+#define SLUV_AWAIT_SPIN     17   /* ctx=status word                (yield) */
+#define SLUV_WAIT_COL       18   /* a=jcol b=awaited column */
+#define SLUV_PRUNE_BEGIN    19   /* a=jj                           (yield) */
+#define SLUV_PRUNE_END      20   /* a=jj                           (yield) */
+#define SLUV_PRESETMAP      21   /* a=n ctx=Glu */
+#define SLUV_PARINIT_END    22   /* a=n ctx=pxgstrf_shared */
+#define SLUV_PARFINAL       23   /* ctx=pxgstrf_shared */
+#define SLUV_UPDATE_SRC     24   /* a=jcol(panel) b=krep c=fsupc   panel update from a DONE supernode */
+#define SLUV_UPDATE_BUSY    25   /* a=jcol(panel) b=krep c=fsupc   panel update from a waited-for supernode */
+#define SLUV_UPDATE_COL     26   /* a=jcol(column) b=krep c=fsupc  column update inside the panel */
+#define SLUV_COL_BEGIN      27   /* a=jj b=jcol                    (yield) */
+#define SLUV_MARK_BUSY      28   /* a=jcol b=bcol in c=bcol out */
+#define SLUV_PIVOT          29   /* a=jcol b=pivrow c=info */
+#define SLUV_DFS_BEGIN      30   /* a=jcol b=w                     (yield) */
+#define SLUV_DFS_END        31   /* a=jcol b=w                     (yield) */
+#define SLUV_SNODE_BEGIN    32   /* a=jcol b=w */
+extern void slu_mt_verif_event(int kind, long pnum, long a, long b, long c,
+			       const void *ctx);
+#define SLU_MT_VERIF_EVENT(k,p,a,b,c,x) \
+    slu_mt_verif_event((k), (long)(p), (long)(a), (long)(b), (long)(c), (const void*)(x))
+#endif /* SLU_MT_VERIF */
+
 /* *********************
    Function prototypes
    *********************/
